@@ -1,5 +1,504 @@
-//! (stub)
+//! C03 — the hash depends only on the byte stream, not on how it is fed.
+//!
+//! Explicit-state search.  For a fixed byte string X: state = (position p, real
+//! `Generator`, deviations used); actions = feed the next k bytes through one
+//! of the update forms (k from a chunk menu).  In every state the observables
+//! must equal those of the reference after X[..p] (and of a fresh generator fed
+//! X[..p] in one call); finalising must not disturb the generator.  Two
+//! regimes: full closure (any number of chunked calls) for short strings, and
+//! deviation-bounded (default = next byte by `update_by_byte`; a deviation is a
+//! chunked call) for long ones.  At the end: `hash_buf` and `hash_stream` under
+//! the scripted reader of C18.
+
+use crate::c18::{Answer, ScriptedReader};
 use crate::common::*;
-use serde_json::Value;
-pub fn replay(_c: &Value) -> Result<(), String> { Err("not implemented".into()) }
-pub fn run(_ctx: &Ctx) -> Report { Report::new("model_checking") }
+use crate::corpus;
+use crate::explore;
+use crate::gen_util::*;
+use refmodel::ctph::Ctph;
+use serde_json::{json, Value};
+use ssdeep::Generator;
+use stateright::{Model, Property};
+use std::hash::{Hash, Hasher};
+use std::sync::atomic::{AtomicU64, Ordering as AO};
+use std::sync::Arc;
+
+#[derive(Clone, Copy, Debug, PartialEq, Eq, Hash)]
+pub enum CForm {
+    Slice,
+    Iter,
+    AddSlice,
+    AddArray,
+    Byte,
+    AddByte,
+}
+const CFORMS: [CForm; 6] = [CForm::Slice, CForm::Iter, CForm::AddSlice, CForm::AddArray, CForm::Byte, CForm::AddByte];
+
+fn feed_c(g: &mut Generator, d: &[u8], f: CForm) {
+    match f {
+        CForm::Slice => {
+            g.update(d);
+        }
+        CForm::Iter => {
+            g.update_by_iter(d.iter().copied());
+        }
+        CForm::AddSlice => {
+            *g += d;
+        }
+        CForm::AddArray => {
+            // += &[u8; N] for the array sizes of the menu; other sizes through the slice form
+            macro_rules! arr {
+                ($($n:expr),*) => {
+                    match d.len() {
+                        $($n => { let a: [u8; $n] = d.try_into().unwrap(); *g += &a; })*
+                        _ => { *g += d; }
+                    }
+                };
+            }
+            arr!(0, 1, 2, 3, 4, 5, 6, 7, 8, 9, 15, 16, 17, 33, 63, 64, 65, 100);
+        }
+        CForm::Byte => {
+            for &c in d {
+                g.update_by_byte(c);
+            }
+        }
+        CForm::AddByte => {
+            for &c in d {
+                *g += c;
+            }
+        }
+    }
+}
+
+#[derive(Clone, Debug)]
+pub struct St {
+    p: usize,
+    g: Generator,
+    dev: usize,
+    bad: Option<String>,
+    key: (u64, u64),
+}
+impl St {
+    fn new(p: usize, g: Generator, dev: usize, bad: Option<String>) -> Self {
+        let d = format!("{:?}", g);
+        // 128-bit key over the complete Debug rendering (two independent FNV-1a passes)
+        let k1 = h64(d.as_bytes());
+        let mut k2: u64 = 0x9E3779B97F4A7C15;
+        for &b in d.as_bytes() {
+            k2 = (k2 ^ b as u64).wrapping_mul(0x100000001b3).rotate_left(5);
+        }
+        St { p, g, dev, bad, key: (k1, k2) }
+    }
+}
+impl PartialEq for St {
+    fn eq(&self, o: &Self) -> bool {
+        self.p == o.p && self.dev == o.dev && self.key == o.key && self.bad.is_some() == o.bad.is_some()
+    }
+}
+impl Eq for St {}
+impl Hash for St {
+    fn hash<H: Hasher>(&self, h: &mut H) {
+        self.p.hash(h);
+        self.dev.hash(h);
+        self.key.hash(h);
+        self.bad.is_some().hash(h);
+    }
+}
+
+pub struct ChunkModel {
+    pub x: Arc<Vec<u8>>,
+    pub zero_prefix: u64,
+    /// expected observables after X[..p], from the reference
+    pub expected: Arc<Vec<Obs>>,
+    pub menu: Vec<usize>,
+    pub forms: Vec<CForm>,
+    /// None = full closure; Some(d) = at most d chunked calls, default action is one byte by update_by_byte
+    pub max_dev: Option<usize>,
+    pub counter: Arc<AtomicU64>,
+}
+
+fn start(zp: u64) -> Generator {
+    if zp == 0 {
+        Generator::new()
+    } else {
+        Generator::verif_new_with_prefix_zeroes(zp)
+    }
+}
+
+impl ChunkModel {
+    pub fn new(x: Vec<u8>, zero_prefix: u64, menu: Vec<usize>, forms: Vec<CForm>, max_dev: Option<usize>) -> Self {
+        let mut r = Ctph::new(zero_prefix);
+        let mut expected = Vec::with_capacity(x.len() + 1);
+        expected.push(crate::gen_util::expected(&r));
+        for &c in &x {
+            r.feed(c);
+            expected.push(crate::gen_util::expected(&r));
+        }
+        ChunkModel { x: Arc::new(x), zero_prefix, expected: Arc::new(expected), menu, forms, max_dev, counter: Arc::new(AtomicU64::new(0)) }
+    }
+    fn judge(&self, s: &St) -> Result<(), String> {
+        if let Some(b) = &s.bad {
+            return Err(b.clone());
+        }
+        let before = format!("{:?}", s.g);
+        let obs = observe(&s.g).map_err(|p| format!("panic in finalize: {}", p))?;
+        if format!("{:?}", s.g) != before {
+            return Err("finalization disturbed the generator".into());
+        }
+        if obs != self.expected[s.p] {
+            return Err(format!("after {} bytes: expected {:?} observed {:?}", s.p, self.expected[s.p], obs));
+        }
+        Ok(())
+    }
+}
+
+impl Model for ChunkModel {
+    type State = St;
+    type Action = (usize, CForm);
+    fn init_states(&self) -> Vec<St> {
+        vec![St::new(0, start(self.zero_prefix), 0, None)]
+    }
+    fn actions(&self, s: &St, a: &mut Vec<(usize, CForm)>) {
+        if s.bad.is_some() || s.p >= self.x.len() {
+            return;
+        }
+        let rest = self.x.len() - s.p;
+        if let Some(d) = self.max_dev {
+            a.push((1, CForm::Byte)); // the default environment answer
+            if s.dev >= d {
+                return;
+            }
+        }
+        for &k in &self.menu {
+            let k = if k == usize::MAX { rest } else { k };
+            if k > rest {
+                continue;
+            }
+            for &f in &self.forms {
+                if self.max_dev.is_some() && k == 1 && f == CForm::Byte {
+                    continue;
+                }
+                if (f == CForm::Byte || f == CForm::AddByte) && k != 1 {
+                    continue; // byte forms are single-byte calls
+                }
+                a.push((k, f));
+            }
+        }
+    }
+    fn next_state(&self, s: &St, (k, f): (usize, CForm)) -> Option<St> {
+        self.counter.fetch_add(1, AO::Relaxed);
+        let mut g = s.g.clone();
+        let data = &self.x[s.p..s.p + k];
+        let res = guarded(|| feed_c(&mut g, data, f));
+        let is_default = self.max_dev.is_some() && k == 1 && f == CForm::Byte;
+        let dev = if self.max_dev.is_some() && !is_default { s.dev + 1 } else { s.dev };
+        let bad = res.err().map(|p| format!("panic in update ({} bytes, {:?}): {}", k, f, p));
+        // a zero-length call must not change anything
+        if k == 0 && bad.is_none() && format!("{:?}", g) != format!("{:?}", s.g) {
+            return Some(St::new(s.p, g, dev, Some(format!("a zero-length {:?} call changed the generator", f))));
+        }
+        if k == 0 && self.max_dev.is_none() {
+            return None;
+        }
+        Some(St::new(s.p + k, g, dev, bad))
+    }
+    fn properties(&self) -> Vec<Property<Self>> {
+        vec![Property::always("observables-depend-only-on-the-bytes-fed", |m, s: &St| m.judge(s).is_ok())]
+    }
+}
+
+fn form_from(s: &str) -> Option<CForm> {
+    CFORMS.iter().copied().find(|f| format!("{:?}", f) == s)
+}
+
+/// Plain re-execution of a chunking (used by replay and for the recorded traces).
+fn run_chunking(x: &[u8], zp: u64, calls: &[(usize, CForm)], with_clone_and_finalize: bool) -> Result<(), String> {
+    let mut g = start(zp);
+    let mut r = Ctph::new(zp);
+    let mut p = 0usize;
+    if let Some(m) = mismatch(&g, &r) {
+        return Err(format!("before any call: {}", m));
+    }
+    for (i, &(k, f)) in calls.iter().enumerate() {
+        if p + k > x.len() {
+            return Err("bad case: chunking longer than the string".into());
+        }
+        guarded(|| feed_c(&mut g, &x[p..p + k], f)).map_err(|e| format!("panic in call {}: {}", i, e))?;
+        r.feed_all(&x[p..p + k]);
+        p += k;
+        if with_clone_and_finalize && i % 2 == 0 {
+            // continue on a clone; finalize in between
+            let c = g.clone();
+            let _ = g.finalize();
+            let _ = g.finalize_without_truncation();
+            g = c;
+        }
+        if let Some(m) = mismatch(&g, &r) {
+            return Err(format!("after call {} ({} bytes via {:?}, {} bytes in total): {}", i + 1, k, f, p, m));
+        }
+    }
+    // one-call generator and the one-shot buffer function at the end
+    if p == x.len() {
+        let mut one = start(zp);
+        one.update(x);
+        if let Some(m) = mismatch(&one, &r) {
+            return Err(format!("one-call generator: {}", m));
+        }
+        if format!("{:?}", observe(&one)) != format!("{:?}", observe(&g)) {
+            return Err("chunked and one-call generators disagree".into());
+        }
+        if zp == 0 {
+            let hb = guarded(|| ssdeep::hash_buf(x))?.map(|h| h.to_string()).unwrap_or_else(|e| format!("Err({:?})", e));
+            if hb != expected(&r).fin {
+                return Err(format!("hash_buf gives {} expected {}", hb, expected(&r).fin));
+            }
+        }
+    }
+    Ok(())
+}
+
+fn reader_case(x: &[u8], script: &[(usize, Answer)]) -> Result<(), String> {
+    let mut rd = ScriptedReader::new(x, usize::MAX, script.to_vec());
+    let got = guarded(|| ssdeep::hash_stream(&mut rd))?.map(|h| h.to_string()).map_err(|e| format!("hash_stream failed: {}", e))?;
+    let exp = refmodel::ctph::ctph(0, x).map(|d| d.text_trunc()).map_err(|_| "ref")?;
+    if got != exp {
+        return Err(format!("hash_stream under short reads {:?} gives {} expected {}", script, got, exp));
+    }
+    Ok(())
+}
+
+fn build_x(spec: &Value) -> Result<(Vec<u8>, u64), String> {
+    let zp = spec["zero_prefix"].as_u64().unwrap_or(0);
+    Ok((unhex(spec["x"].as_str().ok_or("x")?), zp))
+}
+
+pub fn replay(c: &Value) -> Result<(), String> {
+    let (x, zp) = build_x(c)?;
+    match c["kind"].as_str() {
+        Some("chunking") => {
+            let calls: Vec<(usize, CForm)> = c["calls"]
+                .as_array()
+                .ok_or("calls")?
+                .iter()
+                .map(|v| Ok((v[0].as_u64().ok_or("k")? as usize, v[1].as_str().and_then(form_from).ok_or("form")?)))
+                .collect::<Result<_, String>>()?;
+            run_chunking(&x, zp, &calls, false)
+        }
+        Some("reader") => {
+            let script: Vec<(usize, Answer)> = c["script"]
+                .as_array()
+                .ok_or("script")?
+                .iter()
+                .map(|v| (v[0].as_u64().unwrap_or(0) as usize, Answer::Short(v[1].as_u64().unwrap_or(0) as usize)))
+                .collect();
+            reader_case(&x, &script)
+        }
+        _ => Err("bad case".into()),
+    }
+}
+
+fn chunk_case(x: &[u8], zp: u64, calls: &[(usize, CForm)]) -> Value {
+    json!({"kind":"chunking","x":hex(x),"zero_prefix":zp,"calls":calls.iter().map(|c| json!([c.0, format!("{:?}", c.1)])).collect::<Vec<_>>()})
+}
+
+/// byte values whose constant repetition ends a piece on every byte at level >= `min_level`
+fn constant_trigger_bytes(min_level: u32) -> Vec<(u8, u32)> {
+    let mut v = vec![];
+    for b in 1..=255u8 {
+        let h = refmodel::roll(&[b; 7]).wrapping_add(1) as u64;
+        if h != 0 && h % 3 == 0 {
+            let lvl = (h / 3).trailing_zeros();
+            if lvl >= min_level {
+                v.push((b, lvl));
+            }
+        }
+    }
+    v
+}
+
+pub fn run(ctx: &Ctx) -> Report {
+    let mut rep = Report::new("model_checking");
+    let thorough = ctx.tier == Tier::Thorough;
+    let full_menu: Vec<usize> = vec![0, 1, 2, 3, 4, 5, 6, 7, 8, 9, 15, 16, 17, 63, 64, 65, 100, usize::MAX];
+    let small_menu: Vec<usize> = vec![0, 1, 2, 6, 7, 8, 33, 64, usize::MAX];
+    let ctb = constant_trigger_bytes(0);
+    rep.set("constant_trigger_bytes", json!(ctb.iter().map(|(b, l)| format!("{:02x}@{}", b, l)).collect::<Vec<_>>()));
+
+    // ---- regime 1: full closure
+    let mut xs: Vec<(String, Vec<u8>, u64, Vec<usize>, Vec<CForm>)> = vec![];
+    let f3 = vec![CForm::Slice, CForm::Iter, CForm::Byte];
+    let f6 = CFORMS.to_vec();
+    xs.push(("hello".into(), b"Hello, World!\n".to_vec(), 0, full_menu.clone(), f6.clone()));
+    xs.push(("W1^12 Z W0^3 U".into(), { let mut v = corpus::repeat(&corpus::W[1], 12); v.extend(corpus::Z); v.extend(corpus::repeat(&corpus::W[0], 3)); v.extend(corpus::U); v }, 0, full_menu.clone(), f6.clone()));
+    if let Some(&(b, _)) = ctb.first() {
+        xs.push((format!("const {:02x} x 230 (a piece on every byte)", b), vec![b; 230], 0, small_menu.clone(), f3.clone()));
+    }
+    xs.push(("W3^34 (borders inside trigger windows)".into(), corpus::repeat(&corpus::W[3], if thorough { 70 } else { 34 }), 0, if thorough { full_menu.clone() } else { small_menu.clone() }, f3.clone()));
+    // dense head, then a tail without further pieces: the slice form knows the total size up front, the
+    // byte forms learn it as bytes arrive (elimination timing differs); level 1 has exactly 31 / 32 pieces
+    // when level 0 fills up
+    let tiny_menu: Vec<usize> = vec![1, 7, 64, usize::MAX];
+    for n1 in [31usize, 32] {
+        let mut v = corpus::repeat(&corpus::W[1], n1);
+        v.extend(corpus::repeat(&corpus::W[0], 64 - n1 + 2));
+        v.extend(corpus::repeat(&corpus::Z, 6));
+        xs.push((format!("W1^{} W0^{} Z^6 (level 1 has {} pieces when level 0 fills; zero tail)", n1, 64 - n1 + 2, n1), v, 0, tiny_menu.clone(), vec![CForm::Slice, CForm::Byte]));
+    }
+    xs.push(("hook(192*2^4-100) + W5^20 (total crosses a size border)".into(), corpus::repeat(&corpus::W[5], 20), (192u64 << 4) - 100, small_menu.clone(), f3.clone()));
+    // all levels 0..5 fill up at word 64; the size border of level 4 is crossed between words 65 and 66,
+    // so up-front (slice) and per-byte size accounting eliminate level 4 at different moments
+    xs.push(("hook(192*2^4-458) + W5^67 (border crossed while levels are full)".into(), corpus::repeat(&corpus::W[5], 67), (192u64 << 4) - 458, vec![1, 7, 8, 64, usize::MAX], vec![CForm::Slice, CForm::Iter, CForm::Byte]));
+    if thorough {
+        xs.push(("W5^40 F^30 W1^64".into(), { let mut v = corpus::repeat(&corpus::W[5], 40); v.extend(corpus::repeat(&corpus::F, 30)); v.extend(corpus::repeat(&corpus::W[1], 64)); v }, 0, small_menu.clone(), f3.clone()));
+        xs.push(("W2^31 W0^40".into(), { let mut v = corpus::repeat(&corpus::W[2], 31); v.extend(corpus::repeat(&corpus::W[0], 40)); v }, 0, full_menu.clone(), f3.clone()));
+        let mut lcg = Lcg(ctx.seed ^ 0xc03);
+        xs.push(("seeded pseudo-random 2 KiB (supplementary)".into(), lcg.bytes(2048), 0, small_menu.clone(), f3.clone()));
+    }
+    let mut states = 0u64;
+    let mut transitions = 0u64;
+    let mut traces = 0u64;
+    let mut samples = vec![];
+    let mut exhaustive = true;
+    let mut spaces = vec![];
+    for (name, x, zp, menu, forms) in &xs {
+        if ctx.over_budget() {
+            exhaustive = false;
+            spaces.push(json!({"x": name, "skipped": "wall cap hit"}));
+            continue;
+        }
+        let model = ChunkModel::new(x.clone(), *zp, menu.clone(), forms.clone(), None);
+        let counter = model.counter.clone();
+        let expected_tab = model.expected.clone();
+        let sr = explore::run_stateright(model, 16);
+        let tr = counter.load(AO::Relaxed);
+        for (pname, path) in &sr.discoveries {
+            rep.violation(Violation {
+                signature: format!("closure x='{}' calls={:?}", name, path),
+                what: run_chunking(x, *zp, path, false).err().unwrap_or_else(|| pname.clone()),
+                case: chunk_case(x, *zp, path),
+            });
+        }
+        states += sr.unique;
+        transitions += tr;
+        // recorded chunkings re-executed from scratch with plain calls (+ clone / finalize in between)
+        let mut recorded: Vec<Vec<(usize, CForm)>> = vec![];
+        for &k in menu.iter() {
+            let k = if k == usize::MAX { x.len() } else { k };
+            if k == 0 {
+                continue;
+            }
+            for (fi, &f) in forms.iter().enumerate() {
+                if (f == CForm::Byte || f == CForm::AddByte) && k != 1 {
+                    continue;
+                }
+                let mut calls = vec![];
+                let mut p = 0;
+                let mut t = 0;
+                while p < x.len() {
+                    let kk = k.min(x.len() - p);
+                    // alternate with the next form to mix call forms within one history
+                    let ff = if t % 3 == 2 && kk == 1 { forms[(fi + 1) % forms.len()] } else if kk != 1 && (f == CForm::Byte || f == CForm::AddByte) { CForm::Slice } else { f };
+                    calls.push((kk, if kk != 1 && (ff == CForm::Byte || ff == CForm::AddByte) { CForm::Slice } else { ff }));
+                    p += kk;
+                    t += 1;
+                }
+                recorded.push(calls);
+            }
+        }
+        for calls in &recorded {
+            traces += 1;
+            if let Err(e) = run_chunking(x, *zp, calls, true) {
+                rep.violation(Violation { signature: format!("trace x='{}' first-call={:?}", name, calls.first()), what: e, case: chunk_case(x, *zp, calls) });
+            }
+        }
+        if let Some(c) = recorded.get(1) {
+            if samples.len() < 4 {
+                samples.push(json!({"x": name, "len": x.len(), "zero_prefix": zp, "calls_prefix": c.iter().take(6).map(|c| json!([c.0, format!("{:?}", c.1)])).collect::<Vec<_>>()}));
+            }
+        }
+        let _ = expected_tab;
+        spaces.push(json!({"x": name, "len": x.len(), "zero_prefix": zp, "regime": "closure", "menu": menu.iter().map(|&k| if k == usize::MAX { "rest".to_string() } else { k.to_string() }).collect::<Vec<_>>(),
+                           "forms": forms.len(), "states": sr.unique, "transitions": tr, "generated": sr.generated, "max_depth": sr.max_depth, "recorded_chunkings_replayed": recorded.len()}));
+    }
+    // cross-check explorer on the smallest string (two explorers must agree)
+    {
+        let (name, x, zp, menu, forms) = &xs[0];
+        let b = explore::bfs(&ChunkModel::new(x.clone(), *zp, menu.clone(), forms.clone(), None), 2_000_000, 0);
+        let sr = explore::run_stateright(ChunkModel::new(x.clone(), *zp, menu.clone(), forms.clone(), None), 4);
+        if b.violation.is_none() && sr.discoveries.is_empty() && b.states != sr.unique {
+            eprintln!("mc: explorers disagree on C03 '{}': {} vs {}", name, b.states, sr.unique);
+            std::process::exit(5);
+        }
+        rep.set("crosscheck", json!({"x": name, "bfs_states": b.states, "bfs_transitions": b.transitions, "stateright_unique": sr.unique}));
+    }
+
+    // ---- regime 2: deviation-bounded over longer strings
+    let max_dev = ctx.tier.pick(2usize, 3);
+    let mut long: Vec<(String, Vec<u8>, u64)> = vec![
+        ("W3^70 (490 B)".into(), corpus::repeat(&corpus::W[3], 70), 0),
+        ("W1^64 Z W0^40".into(), { let mut v = corpus::repeat(&corpus::W[1], 64); v.extend(corpus::Z); v.extend(corpus::repeat(&corpus::W[0], 40)); v }, 0),
+    ];
+    if thorough {
+        long.push(("W5^40 F^30 W1^64 (938 B)".into(), { let mut v = corpus::repeat(&corpus::W[5], 40); v.extend(corpus::repeat(&corpus::F, 30)); v.extend(corpus::repeat(&corpus::W[1], 64)); v }, 0));
+        long.push(("hook(192*2^8-300) + W9^66".into(), corpus::repeat(&corpus::W[9], 66), (192u64 << 8) - 300));
+    }
+    for (name, x, zp) in &long {
+        if ctx.over_budget() {
+            exhaustive = false;
+            spaces.push(json!({"x": name, "skipped": "wall cap hit"}));
+            continue;
+        }
+        let menu = if thorough { full_menu.clone() } else { small_menu.clone() };
+        let dforms = if thorough { vec![CForm::Slice, CForm::Iter, CForm::AddByte] } else { vec![CForm::Slice, CForm::Iter] };
+        let model = ChunkModel::new(x.clone(), *zp, menu.clone(), dforms, Some(max_dev));
+        let counter = model.counter.clone();
+        let sr = explore::run_stateright(model, 16);
+        let tr = counter.load(AO::Relaxed);
+        for (pname, path) in &sr.discoveries {
+            rep.violation(Violation {
+                signature: format!("deviation-bounded x='{}' calls={:?}", name, path.iter().filter(|c| !(c.0 == 1 && c.1 == CForm::Byte)).collect::<Vec<_>>()),
+                what: run_chunking(x, *zp, path, false).err().unwrap_or_else(|| pname.clone()),
+                case: chunk_case(x, *zp, path),
+            });
+        }
+        states += sr.unique;
+        transitions += tr;
+        spaces.push(json!({"x": name, "len": x.len(), "zero_prefix": zp, "regime": format!("<= {} chunked calls among single-byte calls", max_dev), "states": sr.unique, "transitions": tr, "max_depth": sr.max_depth}));
+    }
+
+    // ---- reader: every pattern of <= 2 short reads, payloads crossing the 32 KiB buffer
+    let mut jobs: Vec<(usize, Vec<(usize, Answer)>)> = vec![];
+    let payloads: Vec<Vec<u8>> = vec![crate::c18::payload(100), crate::c18::payload(32769), crate::c18::payload(ctx.tier.pick(70_000, 100_000))];
+    for (pi, p) in payloads.iter().enumerate() {
+        let reads = p.len() / 32768 + 2;
+        for s in crate::c18::scripts(reads.min(5), &[1, 2, 6, 7, 8, 4095, 32767], &[], 2) {
+            jobs.push((pi, s));
+        }
+    }
+    let acc = par_shards(jobs.len(), |i, acc| {
+        let (pi, s) = &jobs[i];
+        acc.evaluations += 1;
+        acc.nontrivial += 1;
+        if let Err(e) = reader_case(&payloads[*pi], s) {
+            let sj: Vec<Value> = s.iter().map(|(i, a)| json!([i, match a { Answer::Short(n) => *n, _ => 0 }])).collect();
+            acc.violation(format!("reader len={} script={:?}", payloads[*pi].len(), s), e, json!({"kind":"reader","x":hex(&payloads[*pi]),"script":sj}));
+        }
+    });
+    acc.into_report(&mut rep, "hash_stream_under_short_reads_up_to_2_deviations");
+
+    rep.set("spaces", Value::Array(spaces));
+    rep.set("states", states);
+    rep.set("transitions", transitions);
+    rep.set("traces_validated_against_impl", traces);
+    let mut all_samples = samples;
+    if let Some(Value::Array(a)) = rep.coverage.get("samples") {
+        all_samples.extend(a.iter().cloned());
+    }
+    rep.set("samples", Value::Array(all_samples));
+    rep.set("exhaustive", exhaustive);
+    rep.set(
+        "rule",
+        "per byte string X: BFS over (position, real Generator [complete Debug rendering, 128-bit key], chunked calls used) under 'feed the next k bytes' for k in the chunk menu ({0..9,15,16,17,63,64,65,100,rest} or {0,1,2,6,7,8,33,64,rest}) through update / update_by_iter / += &[u8] / += &[u8;N] / update_by_byte / += u8; closure regime = any number of chunked calls (all call histories of any length over the menu); deviation-bounded regime = single-byte calls with at most d chunked calls; in every state finalize / finalize_without_truncation / finalize_raw::<false,64,32> / input_size / warning equal the reference after X[..p] and finalising leaves the rendering unchanged; recorded chunkings are re-executed from scratch with clones and finalizations in between and compared with the one-call generator and hash_buf; hash_stream under every pattern of <= 2 short reads.",
+    );
+    rep
+}
